@@ -1,21 +1,20 @@
 /-
   C01 extension 3 — property theorems: implementation model (Klong.Model.C01Ext3, mirroring the
-  Python of dyads.py / monads.py) = reference (Ext3.refDyad / Ext3.refMonad, the manual text
-  transcribed) wherever the reference is defined, for every list length, nesting depth and index.
+  Python of dyads.py / monads.py as repaired by 175176c, 22bcc8e, 2fe5617, 12321e2, 187c70d) =
+  reference (Ext3.refDyad / Ext3.refMonad, the manual text transcribed) wherever the reference is
+  defined, for every list length, nesting depth and index.
 
   Hypotheses that appear in the statements (all decidable):
   * `Ext1.notStored x = false` — the literal `x` is what the interpreter holds;
-  * `Ext1.mixedNum v = false` — the reference result is not a regular nest of numbers mixing
+  * `Ext1.mixedNum w = false` — the reference result is not a regular nest of numbers mixing
     integers and reals (numpy re-packs it as one float64 array: finding mixed-numeric-level);
+  * `repackOk w = true` / `pathOk w is = true` / `clashFree w = true` — `kg_asarray` of the rebuilt
+    member list does not broadcast member arrays whose shapes agree on leading dimensions only
+    (`Ext1.objArrayClash`; witness `depth_repack_witness`);
+  * `amendValueOk a v = true` / `hasReal a = false` — the integer value is not stored into a float64
+    array (it would come back real: `[0.5]:=0,0` is `[0.0]`; witness `amend_kind_witness`);
   * `ufuncSkip a b = false` — the paired traversal of an atomic dyad meets no numpy broadcast
-    (findings atomic:rank-mismatch / numpy-shape-mismatch / object-array-rank2);
-  * per verb, the operand classes on which klongpy deviates from the manual, each with a
-    `by decide` witness:
-      `amendPutClass a v = true`   (Amend of a list: numpy.put — witnesses amend_matrix_witness, amend_text_witness)
-      `amendInPlace cs s ixs = true` / one growing index (Amend of a string by a string — amend_grow_witness)
-      `aidClass a v n = true`      (Amend-in-Depth — depth_deviation_witness)
-      `hasNumArr a = false`        (Format: a numeric array recurses forever — format_witness)
-      `formRaises a b = false`     (Form: int() raises instead of :undefined — form_witness).
+    (findings atomic:rank-mismatch / numpy-shape-mismatch / object-array-rank2).
   Form is proved on atoms (`form_atom_correct`); its element-wise extension through lists
   (`formRec`, mirroring vec_fn2 / _e_dyad_form) is modelled and tied by the differential run only.
 -/
@@ -52,29 +51,6 @@ theorem pySetAll_nat {α} (v : α) : ∀ (is : List Nat) (xs : List α),
     apply ih
     simpa using h.2
 
-/-! ## Amend on lists -/
-
-def isIntV : Val → Bool
-  | .int _ => true
-  | _ => false
-
-def isRealV : Val → Bool
-  | .real _ => true
-  | _ => false
-
-/-- where `numpy.put` does what the manual says: an object array takes any value; a rank-1 integer
-    (real) array takes an integer (real).  Outside: rank ≥ 2 arrays are amended at the FLAT
-    position, text raises ValueError, a real is truncated, an integer becomes a real. -/
-def amendPutClass (a v : Val) : Bool :=
-  match v with
-  | .list _ => true
-  | .dict _ => false
-  | .undef => false
-  | _ =>
-    match numShape a with
-    | none => true
-    | some s => s.length == 1 && ((!Ext1.hasReal a && isIntV v) || (Ext1.hasReal a && isRealV v))
-
 theorem natList_length : ∀ (vs : List Val) (is : List Nat), natList vs = some is → is.length = vs.length
   | [], is, h => by simp [natList] at h; subst h; rfl
   | x :: r, is, h => by
@@ -107,14 +83,46 @@ theorem refAmend_cons {a : Val} {v : Val} {ixs : List Val} {w : Val}
     | str cs => cases v <;> simp [refAmend, hp] at h
     | _ => simp [refAmend] at h
 
+/-! ## Amend on lists -/
+
+def isIntV : Val → Bool
+  | .int _ => true
+  | _ => false
+
+/-- the value is of a modelled kind and, where `numpy.put` takes it, it is not an integer going
+    into a float64 array (which stores it as a real) -/
+def amendValueOk (a v : Val) : Bool :=
+  !isOpaqueV v && !(putFits a v && (numShape a).isSome && realKind a && isIntV v)
+
+/-- `kg_asarray` of the rebuilt member list keeps the members: it is a regular numeric nest or no
+    two member arrays agree on leading dimensions only -/
+def repackOk : Val → Bool
+  | .list r => (numShape (.list r)).isSome || !Ext1.objArrayClash r
+  | _ => true
+
+theorem repack_ok (r : List Val) (hm : Ext1.mixedNum (.list r) = false) (hr : repackOk (.list r) = true) :
+    repack r = .ok (.list r) := by
+  simp only [repackOk, Bool.or_eq_true, Bool.not_eq_true'] at hr
+  unfold repack
+  rw [Ext1.npCoerce_id hm]
+  rcases hr with hr | hr
+  · cases hn : numShape (Val.list r) with
+    | none => simp [hn] at hr
+    | some s => simp
+  · simp [hr]
+
+theorem toReal_nonInt (v : Val) (hl : isListV v = false) (hi : isIntV v = false) : Ext1.toReal v = v := by
+  cases v <;> simp_all [Ext1.toReal, isListV, isIntV]
+
 /-- **amend_list_correct**: for a list `a` and `b = [v i1 … iN]` with every index inside `a`,
-    the model of `eval_dyad_amend` returns the reference's list (the elements at i1 … iN replaced by
-    `v`), inside `amendPutClass`. -/
+    the model of `eval_dyad_amend` (numpy.put fast path or the member-list path) returns the
+    reference's list: the members at i1 … iN replaced by `v`, whatever the rank of `a` and the
+    kind of `v` -/
 theorem amend_list_correct (xs : List Val) (b w : Val)
     (h : refDyad ":=" (.list xs) b = some w)
     (ha : Ext1.notStored (.list xs) = false) (hb : Ext1.notStored b = false)
-    (hc : ∀ v ixs, b = .list (v :: ixs) → amendPutClass (.list xs) v = true)
-    (hm : Ext1.mixedNum w = false) :
+    (hc : ∀ v ixs, b = .list (v :: ixs) → amendValueOk (.list xs) v = true)
+    (hm : Ext1.mixedNum w = false) (hr : repackOk w = true) :
     implDyad ":=" (.list xs) b = .ok w := by
   simp only [refDyad] at h
   simp only [implDyad]
@@ -139,120 +147,55 @@ theorem amend_list_correct (xs : List Val) (b w : Val)
         | cons j r =>
           simp only [Ext1.intList_of_natList hp]
           have hset := pySetAll_nat v is xs hall
-          -- the value decides the path
-          cases v with
-          | list vs =>
-            simp only [implAmendList, hset]
-            rw [Ext1.npCoerce_id hm]
-          | dict _ => simp [amendPutClass] at hcl
-          | undef => simp [amendPutClass] at hcl
-          | int n =>
-            have hne : xs.isEmpty = false :=
-              nonempty_of_all_lt (by rw [natList_length _ _ hp]; simp) hall
-            simp only [implAmendList, hne, Bool.false_eq_true, if_false]
-            cases hs : numShape (.list xs) with
-            | none => simp [hset, lift]
-            | some s =>
-              simp only [amendPutClass, hs, isIntV, isRealV, Bool.and_true, Bool.and_false, Bool.or_false,
-                Bool.and_eq_true, beq_iff_eq, Bool.not_eq_true'] at hcl
-              simp [isText, hcl.1, hcl.2, hset, lift]
-          | real n =>
-            have hne : xs.isEmpty = false :=
-              nonempty_of_all_lt (by rw [natList_length _ _ hp]; simp) hall
-            simp only [implAmendList, hne, Bool.false_eq_true, if_false]
-            cases hs : numShape (.list xs) with
-            | none => simp [hset, lift]
-            | some s =>
-              simp only [amendPutClass, hs, isIntV, isRealV, Bool.and_true, Bool.and_false, Bool.false_or,
-                Bool.and_eq_true, beq_iff_eq] at hcl
-              simp [isText, hcl.1, hcl.2, hset, lift, Ext1.toReal]
-          | chr c =>
-            have hne : xs.isEmpty = false :=
-              nonempty_of_all_lt (by rw [natList_length _ _ hp]; simp) hall
-            simp only [implAmendList, hne, Bool.false_eq_true, if_false]
-            cases hs : numShape (.list xs) with
-            | none => simp [hset, lift]
-            | some s => simp [amendPutClass, hs, isIntV, isRealV] at hcl
-          | str c =>
-            have hne : xs.isEmpty = false :=
-              nonempty_of_all_lt (by rw [natList_length _ _ hp]; simp) hall
-            simp only [implAmendList, hne, Bool.false_eq_true, if_false]
-            cases hs : numShape (.list xs) with
-            | none => simp [hset, lift]
-            | some s => simp [amendPutClass, hs, isIntV, isRealV] at hcl
-          | sym c =>
-            have hne : xs.isEmpty = false :=
-              nonempty_of_all_lt (by rw [natList_length _ _ hp]; simp) hall
-            simp only [implAmendList, hne, Bool.false_eq_true, if_false]
-            cases hs : numShape (.list xs) with
-            | none => simp [hset, lift]
-            | some s => simp [amendPutClass, hs, isIntV, isRealV] at hcl
+          have hne : xs.isEmpty = false :=
+            nonempty_of_all_lt (by rw [natList_length _ _ hp]; simp) hall
+          simp only [amendValueOk, Bool.and_eq_true, Bool.not_eq_true'] at hcl
+          simp only [implAmendList, hcl.1, Bool.false_eq_true, if_false]
+          cases hf : putFits (.list xs) v with
+          | true =>
+            -- numpy.put: the value is stored as it is
+            have hv : (if ((numShape (Val.list xs)).isSome && realKind (Val.list xs)) = true
+                then Ext1.toReal v else v) = v := by
+              split
+              · rename_i hk
+                have hi : isIntV v = false := by
+                  have := hcl.2
+                  simp only [hf, Bool.true_and, hk] at this
+                  simpa using this
+                have hl : isListV v = false := by
+                  cases v <;> simp_all [putFits, isListV]
+                exact toReal_nonInt v hl hi
+              · rfl
+            simp only [if_true, hne, Bool.false_eq_true, if_false, hv, hset, Option.map_some, lift]
+          | false =>
+            simp only [Bool.false_eq_true, if_false, hset]
+            exact repack_ok _ hm hr
       · simp at h
   | _ => simp [refAmend] at h
 
 /-! ## Amend on strings -/
 
-/-- the character array of a string: one slot per character -/
-def single (cs : List Nat) : List (List Nat) := cs.map fun c => [c]
-
-theorem single_length (cs : List Nat) : (single cs).length = cs.length := by simp [single]
-
-theorem flatten_single (cs : List Nat) : (single cs).flatten = cs := by
-  induction cs with
-  | nil => rfl
-  | cons c cs ih => simpa [single] using ih
-
-theorem splice_length (cur q : List Nat) (i : Nat) (h : i + q.length ≤ cur.length) :
-    (splice cur q i).length = cur.length := by
+theorem splice_length_ge (r q : List Nat) (i : Nat) (h : i ≤ r.length) : r.length ≤ (splice r q i).length := by
   simp [splice]; omega
 
-/-- line 60 succeeds when the substring fits: the slots i … i+m-1 are overwritten -/
-theorem amendStep_inplace (q cur : List Nat) (i : Nat) (h : i + q.length ≤ cur.length) :
-    amendStep q (single cur) i = single (splice cur q i) := by
-  unfold amendStep
-  simp only [single_length]
-  have h1 : min i cur.length = i := by omega
-  have h2 : min (i + q.length) cur.length = i + q.length := by omega
-  have h3 : (i + q.length - i == q.length) = true := by simp
-  simp only [h1, h2, h3, if_true]
-  simp [single, splice, List.map_take, List.map_drop]
-
-theorem foldl_inplace (q : List Nat) : ∀ (is : List Nat) (cur : List Nat),
-    is.all (fun i => decide (i + q.length ≤ cur.length)) = true →
-    (is.map fun (p : Nat) => (p : Int)).foldl (fun r i => amendStep q r i.toNat) (single cur)
-      = single (spliceAll cur q is) := by
+/-- the loop `r = r[:i] + q + r[i+len(q):]` on natural indices that never exceed the current length -/
+theorem amendStrLoop_nat (q : List Nat) : ∀ (is : List Nat) (r : List Nat),
+    (∀ i ∈ is, i ≤ r.length) →
+    amendStrLoop q r (is.map fun (p : Nat) => (p : Int)) = some (spliceAll r q is) := by
   intro is
   induction is with
-  | nil => intro cur _; rfl
+  | nil => intro r _; rfl
   | cons i is ih =>
-    intro cur h
-    simp only [List.all_cons, Bool.and_eq_true, decide_eq_true_eq] at h
-    simp only [List.map_cons, List.foldl_cons, Int.toNat_natCast, spliceAll]
-    rw [amendStep_inplace q cur i h.1]
+    intro r h
+    have hi : i ≤ r.length := h i (by simp)
+    have h1 : ¬ ((i : Int) < 0) := by omega
+    have h2 : ¬ ((i : Int) > (r.length : Int)) := by omega
+    simp only [List.map_cons, amendStrLoop, h1, if_false, false_or, h2, Int.toNat_natCast, spliceAll]
     apply ih
-    rw [splice_length cur q i h.1]
-    simpa using h.2
-
-theorem any_neg_map_nat (is : List Nat) :
-    ((is.map fun (p : Nat) => (p : Int)).any fun i => decide (i < 0)) = false := by
-  induction is with
-  | nil => rfl
-  | cons i is ih =>
-    have : ¬ ((i : Int) < 0) := by omega
-    simp [this, ih]
-
-theorem implAmendStr_inplace (cs q : List Nat) (is : List Nat)
-    (h : is.all (fun i => decide (i + q.length ≤ cs.length)) = true) :
-    implAmendStr cs q (is.map fun (p : Nat) => (p : Int)) = .ok (.str (spliceAll cs q is)) := by
-  unfold implAmendStr
-  rw [any_neg_map_nat]
-  simp only [Bool.false_eq_true, if_false]
-  have := foldl_inplace q is cs h
-  simp only [single] at this
-  rw [this]
-  have := flatten_single (spliceAll cs q is)
-  simp only [single] at this
-  rw [this]
+    intro j hj
+    have := h j (by simp [hj])
+    have := splice_length_ge r q i hi
+    omega
 
 theorem splice_single (cs : List Nat) (c i : Nat) (h : i < cs.length) : splice cs [c] i = cs.set i c := by
   simp [splice, List.set_eq_take_append_cons_drop, h]
@@ -269,127 +212,61 @@ theorem setAll_eq_spliceAll (c : Nat) : ∀ (is : List Nat) (cs : List Nat),
     apply ih
     simpa using h.2
 
-/-- **amend_str_chr_correct**: a string amended with a character at positions inside the string -/
-theorem amend_str_chr_correct (cs : List Nat) (c : Nat) (ixs : List Val) (w : Val)
-    (h : refDyad ":=" (.str cs) (.list (.chr c :: ixs)) = some w)
-    (hb : Ext1.notStored (.list (.chr c :: ixs)) = false) :
-    implDyad ":=" (.str cs) (.list (.chr c :: ixs)) = .ok w := by
+
+/-- **amend_str_correct**: a string amended with a character (positions inside the string) or with
+    a string (pairwise disjoint substrings starting at positions ≤ #a, growing past the end):
+    the Python slicing loop returns the reference's string — no operand class excluded -/
+theorem amend_str_correct (cs : List Nat) (b w : Val)
+    (h : refDyad ":=" (.str cs) b = some w) : implDyad ":=" (.str cs) b = .ok w := by
   simp only [refDyad] at h
-  obtain ⟨is, hp⟩ := refAmend_cons h
-  simp only [refAmend, hp] at h
-  split at h
-  · rename_i hall
-    simp only [Option.some.injEq] at h
-    subst h
-    simp only [implDyad, implAmend, hb, Bool.false_eq_true, if_false]
-    cases ixs with
-    | nil =>
-      simp only [natList, Option.some.injEq] at hp
-      subst hp
-      simp [setAll]
-    | cons j r =>
-      simp only [Ext1.intList_of_natList hp]
-      have hall' : is.all (fun i => decide (i + [c].length ≤ cs.length)) = true := by
-        simp only [List.all_eq_true, decide_eq_true_eq] at hall ⊢
-        intro x hx
-        have := hall x hx
-        simp only [List.length_singleton]
-        omega
-      rw [implAmendStr_inplace cs [c] is hall', setAll_eq_spliceAll c is cs hall]
-  · simp at h
-
-/-- the substrings all lie inside the string -/
-def amendInPlace (cs s : List Nat) (ixs : List Val) : Bool :=
-  match natList ixs with
-  | some is => is.all fun i => decide (i + s.length ≤ cs.length)
-  | none => false
-
-/-- **amend_str_inplace_correct**: a string amended with a string at pairwise disjoint positions
-    where the substring fits -/
-theorem amend_str_inplace_correct (cs s : List Nat) (ixs : List Val) (w : Val)
-    (h : refDyad ":=" (.str cs) (.list (.str s :: ixs)) = some w)
-    (hb : Ext1.notStored (.list (.str s :: ixs)) = false)
-    (hin : amendInPlace cs s ixs = true) :
-    implDyad ":=" (.str cs) (.list (.str s :: ixs)) = .ok w := by
-  simp only [refDyad] at h
-  obtain ⟨is, hp⟩ := refAmend_cons h
-  simp only [refAmend, hp] at h
-  simp only [amendInPlace, hp] at hin
-  split at h
-  · simp only [Option.some.injEq] at h
-    subst h
-    simp only [implDyad, implAmend, hb, Bool.false_eq_true, if_false]
-    cases ixs with
-    | nil =>
-      simp only [natList, Option.some.injEq] at hp
-      subst hp
-      simp [spliceAll]
-    | cons j r =>
-      simp only [Ext1.intList_of_natList hp]
-      rw [implAmendStr_inplace cs s is hin]
-  · simp at h
-
-theorem flatten_set_single (cs s : List Nat) (i : Nat) (h : i < cs.length) :
-    ((single cs).set i s).flatten = cs.take i ++ s ++ cs.drop (i + 1) := by
-  rw [List.set_eq_take_append_cons_drop]
-  simp only [single_length, h, if_true]
-  simp only [single, ← List.map_take, ← List.map_drop, List.flatten_append, List.flatten_cons]
-  have e1 := flatten_single (cs.take i)
-  have e2 := flatten_single (cs.drop (i + 1))
-  simp only [single] at e1 e2
-  rw [e1, e2]
-  simp
-
-/-- **amend_str_grow_correct**: one substring of at least two characters that starts at the last
-    character or right behind the string: the string grows (lines 65–68) as the manual says -/
-theorem amend_str_grow_correct (cs s : List Nat) (i : Nat) (hm : 2 ≤ s.length)
-    (hi : i = cs.length ∨ i + 1 = cs.length)
-    (hb : Ext1.notStored (.list [.str s, .int i]) = false) :
-    refDyad ":=" (.str cs) (.list [.str s, .int i]) = some (.str (splice cs s i)) ∧
-    implDyad ":=" (.str cs) (.list [.str s, .int i]) = .ok (.str (splice cs s i)) := by
-  constructor
-  · have hle : i ≤ cs.length := by omega
-    have hn : ¬ ((i : Int) < 0) := by omega
-    simp [refDyad, refAmend, natList, hn, apart, spliceAll, hle]
-  · simp only [implDyad, implAmend, hb, Bool.false_eq_true, if_false, Ext1.intList, Option.map_some]
-    unfold implAmendStr
-    have hn : ¬ ((i : Int) < 0) := by omega
-    simp only [List.any_cons, hn, decide_false, List.any_nil, Bool.or_self, Bool.false_eq_true, if_false,
-      List.foldl_cons, List.foldl_nil, Int.toNat_natCast]
-    have hs := single_length cs
-    simp only [single] at hs
-    rcases hi with hi | hi
-    · -- i = #a: the whole string is appended
-      subst hi
-      unfold amendStep
-      simp only [hs]
-      have h1 : min cs.length cs.length = cs.length := by omega
-      have h2 : min (cs.length + s.length) cs.length = cs.length := by omega
-      have h3 : (cs.length - cs.length == s.length) = false := by
-        simp only [Nat.sub_self, beq_eq_false_iff_ne, ne_eq]; omega
-      have h4 : (s.length == 1) = false := by simp only [beq_eq_false_iff_ne, ne_eq]; omega
-      simp only [h1, h2, h3, h4, Bool.false_eq_true, if_false, Nat.lt_irrefl, beq_self_eq_true, if_true]
-      have := flatten_single cs
-      simp only [single] at this
-      simp [splice, this]
-    · -- i = #a - 1: the last slot takes the whole string
-      have hlt : i < cs.length := by omega
-      unfold amendStep
-      simp only [hs]
-      have h1 : min i cs.length = i := by omega
-      have h2 : min (i + s.length) cs.length = cs.length := by omega
-      have h3 : (cs.length - i == s.length) = false := by
-        simp only [beq_eq_false_iff_ne, ne_eq]; omega
-      have h4 : (s.length == 1) = false := by simp only [beq_eq_false_iff_ne, ne_eq]; omega
-      have h5 : ¬ (i > cs.length) := by omega
-      have h6 : (i == cs.length) = false := by simp only [beq_eq_false_iff_ne, ne_eq]; omega
-      simp only [h1, h2, h3, h4, h5, h6, Bool.false_eq_true, if_false]
-      have := flatten_set_single cs s i hlt
-      simp only [single] at this
-      rw [this]
-      have hd1 : cs.drop (i + 1) = [] := by apply List.drop_eq_nil_of_le; omega
-      have hd2 : cs.drop (i + s.length) = [] := by apply List.drop_eq_nil_of_le; omega
-      simp [splice, hd1, hd2]
+  cases b with
+  | list bs =>
+    cases bs with
+    | nil => simp [refAmend] at h
+    | cons v ixs =>
+      obtain ⟨is, hp⟩ := refAmend_cons h
+      cases v with
+      | chr c =>
+        simp only [refAmend, hp] at h
+        split at h
+        · rename_i hall
+          simp only [Option.some.injEq] at h
+          subst h
+          cases ixs with
+          | nil =>
+            simp only [natList, Option.some.injEq] at hp
+            subst hp
+            simp [implDyad, implAmend, setAll]
+          | cons j r =>
+            have hle : ∀ i ∈ is, i ≤ cs.length := by
+              intro i hi
+              have := (List.all_eq_true.mp hall) i hi
+              simp only [decide_eq_true_eq] at this
+              omega
+            simp [implDyad, implAmend, Ext1.intList_of_natList hp, amendText, amendStrLoop_nat [c] is cs hle,
+              setAll_eq_spliceAll c is cs hall, lift]
+        · simp at h
+      | str s =>
+        simp only [refAmend, hp] at h
+        split at h
+        · rename_i hall
+          simp only [Option.some.injEq] at h
+          subst h
+          cases ixs with
+          | nil =>
+            simp only [natList, Option.some.injEq] at hp
+            subst hp
+            simp [implDyad, implAmend, spliceAll]
+          | cons j r =>
+            simp only [Bool.and_eq_true] at hall
+            have hle : ∀ i ∈ is, i ≤ cs.length := by
+              intro i hi
+              have := (List.all_eq_true.mp hall.1) i hi
+              simpa using this
+            simp [implDyad, implAmend, Ext1.intList_of_natList hp, amendText, amendStrLoop_nat s is cs hle, lift]
+        · simp at h
+      | _ => simp [refAmend] at h
+  | _ => simp [refAmend] at h
 
 /-! ## regular arrays -/
 
@@ -437,39 +314,71 @@ theorem regShape_nil_notList (x : Val) (h : regShape x = some []) : isListV x = 
 theorem regShape_atom (a : Val) (s : List Nat) (hl : isListV a = false) (h : regShape a = some s) : s = [] := by
   cases a <;> simp_all [regShape, isListV]
 
+
 /-! ## Amend-in-Depth -/
 
-theorem aidWalk_correct (v : Val) : ∀ (is : List Nat) (a : Val) (s : List Nat) (w : Val),
-    is ≠ [] → regShape a = some s → is.length = s.length → deepSet a is v = some w →
-    aidWalk a (is.map fun (p : Nat) => (p : Int)) v = .ok w := by
+theorem numShape_elems (xs : List Val) (s : List Nat) (h : numShape (.list xs) = some s) (hne : xs ≠ []) :
+    ∃ t, s = xs.length :: t ∧ ∀ x ∈ xs, numShape x = some t := by
+  cases xs with
+  | nil => exact (hne rfl).elim
+  | cons y ys =>
+    simp only [numShape] at h
+    cases hy : numShape y with
+    | none => simp [hy] at h
+    | some t =>
+      simp only [hy] at h
+      split at h
+      · rename_i hall
+        simp only [Option.some.injEq] at h
+        refine ⟨t, by simp [← h], ?_⟩
+        intro x hx
+        rcases List.mem_cons.mp hx with rfl | hx
+        · exact hy
+        · have := Ext1.numShapes_all _ ys hall x hx
+          simpa using this
+      · simp at h
+
+/-- on a regular array of numbers numpy's shape is the reference's shape -/
+theorem shape_agree : ∀ (a : Val) (s s' : List Nat), numShape a = some s → regShape a = some s' → s = s'
+  | .list [], _, _, _, h2 => by simp [regShape] at h2
+  | .list (x :: xs), s, s', h1, h2 => by
+    obtain ⟨t, ht, hel⟩ := numShape_elems (x :: xs) s h1 (by simp)
+    obtain ⟨t', ht', hel'⟩ := regShape_elems (x :: xs) s' h2
+    have := shape_agree x t t' (hel x (by simp)) (hel' x (by simp))
+    subst this
+    rw [ht, ht']
+  | .int _, s, s', h1, h2 => by
+    simp only [numShape, Option.some.injEq] at h1
+    simp only [regShape, Option.some.injEq] at h2
+    rw [← h1, ← h2]
+  | .real _, s, s', h1, h2 => by
+    simp only [numShape, Option.some.injEq] at h1
+    simp only [regShape, Option.some.injEq] at h2
+    rw [← h1, ← h2]
+  | .chr _, _, _, h1, _ => by simp [numShape] at h1
+  | .sym _, _, _, h1, _ => by simp [numShape] at h1
+  | .str _, _, _, h1, _ => by simp [numShape] at h1
+  | .dict _, _, _, h1, _ => by simp [numShape] at h1
+  | .undef, _, _, h1, _ => by simp [numShape] at h1
+
+/-- numpy's multi-index assignment reaches the element the reference addresses -/
+theorem multiSet_nat (v : Val) : ∀ (is : List Nat) (a w : Val), deepSet a is v = some w →
+    multiSet a (is.map fun (p : Nat) => (p : Int)) v = some w := by
   intro is
   induction is with
-  | nil => intro a s w h; exact (h rfl).elim
+  | nil => intro a w h; simp [deepSet] at h
   | cons i r ih =>
-    intro a s w _ hs hlen hd
+    intro a w hd
     cases a with
     | list xs =>
-      obtain ⟨t, ht, hel⟩ := regShape_elems xs s hs
-      subst ht
       cases r with
       | nil =>
-        -- the last index: the members are the elements
-        simp only [List.length_cons, List.length_nil, Nat.zero_add] at hlen
-        have ht : t = [] := by
-          cases t with
-          | nil => rfl
-          | cons _ _ => simp at hlen
-        subst ht
         simp only [deepSet] at hd
         split at hd
         · rename_i hi
           simp only [Option.some.injEq] at hd
           subst hd
-          have hall : xs.all (fun x => !isListV x) = true := by
-            simp only [List.all_eq_true, Bool.not_eq_true']
-            intro x hx
-            exact regShape_nil_notList x (hel x hx)
-          simp [aidWalk, hall, pySet_nat xs i v hi, lift]
+          simp [multiSet, pySet_nat xs i v hi]
         · simp at hd
       | cons j r' =>
         simp only [deepSet] at hd
@@ -479,42 +388,27 @@ theorem aidWalk_correct (v : Val) : ∀ (is : List Nat) (a : Val) (s : List Nat)
           simp only [hx, Option.map_eq_some_iff] at hd
           obtain ⟨y, hy, hw⟩ := hd
           subst hw
-          have hmem : x ∈ xs := List.mem_of_getElem? hx
           have hi : i < xs.length := by
             rcases List.getElem?_eq_some_iff.mp hx with ⟨hi, _⟩
             exact hi
-          have hlen' : (j :: r').length = t.length := by
-            simp only [List.length_cons] at hlen ⊢
-            omega
-          have := ih x t y (by simp) (hel x hmem) hlen' hy
+          have := ih x y hy
           simp only [List.map_cons] at this
-          simp [aidWalk, Ext1.pyIndex_nat, hx, this, pySet_nat xs i y hi, lift]
-    | _ =>
-      have := regShape_atom _ s rfl hs
-      subst this
-      simp at hlen
+          simp [multiSet, Ext1.pyIndex_nat, hx, this, pySet_nat xs i y hi]
+    | _ => simp [deepSet] at hd
 
-/-- where `_e_dyad_amend_in_depth` does what the manual says: an integer into an array of
-    integers; a character / string / symbol when there are at least two indices.  Outside: a real
-    or a list value and (with ONE index) a text value raise, an integer into a real array is
-    converted. -/
-def aidClass (a v : Val) (n : Nat) : Bool :=
-  match v with
-  | .int _ => !Ext1.hasReal a
-  | .chr _ => decide (n ≥ 2)
-  | .str _ => decide (n ≥ 2)
-  | .sym _ => decide (n ≥ 2)
-  | _ => false
+theorem regShape_nonempty {xs : List Val} {s : List Nat} (h : regShape (.list xs) = some s) : xs.isEmpty = false := by
+  cases xs with
+  | nil => simp [regShape] at h
+  | cons _ _ => rfl
 
-/-- **amend_in_depth_correct**: for a regular N-dimensional array of numbers (any N) — or any
-    stored vector with one index — and N in-range indices, the model of `eval_dyad_amend_in_depth`
-    replaces exactly the addressed element, inside `aidClass`. -/
-theorem amend_in_depth_correct (xs : List Val) (v : Val) (ixs : List Val) (w : Val)
-    (h : refDyad ":-" (.list xs) (.list (v :: ixs)) = some w)
-    (ha : Ext1.notStored (.list xs) = false) (hb : Ext1.notStored (.list (v :: ixs)) = false)
-    (hn : ((numShape (.list xs)).isSome || ixs.length == 1) = true)
-    (hc : aidClass (.list xs) v ixs.length = true) :
-    implDyad ":-" (.list xs) (.list (v :: ixs)) = .ok w := by
+/-- **amend_in_depth_correct**: an integer stored into a regular N-dimensional array of integers
+    (any N) at N in-range indices: the direct path `p[tuple(q)] = v` replaces exactly the addressed
+    element -/
+theorem amend_in_depth_correct (xs : List Val) (n : Int) (ixs : List Val) (w : Val)
+    (h : refDyad ":-" (.list xs) (.list (.int n :: ixs)) = some w)
+    (ha : Ext1.notStored (.list xs) = false) (hb : Ext1.notStored (.list (.int n :: ixs)) = false)
+    (hn : (numShape (.list xs)).isSome = true) (hr : Ext1.hasReal (.list xs) = false) :
+    implDyad ":-" (.list xs) (.list (.int n :: ixs)) = .ok w := by
   simp only [refDyad, refAmendDepth] at h
   cases hs : regShape (.list xs) with
   | none => simp [hs] at h
@@ -526,54 +420,173 @@ theorem amend_in_depth_correct (xs : List Val) (v : Val) (ixs : List Val) (w : V
       split at h
       · rename_i hlen
         simp only [beq_iff_eq] at hlen
-        obtain ⟨t, ht, hel⟩ := regShape_elems xs s hs
-        have hixs : ixs.length = is.length := (natList_length ixs is hp).symm
-        simp only [implDyad, implAmendDepth, ha, hb, Bool.or_self, Bool.false_eq_true, if_false,
-          Ext1.intList_of_natList hp]
-        have hv : aidValue (.list xs) v = some v := by
-          cases v with
-          | int n =>
-            have : Ext1.hasReal (.list xs) = false := by simpa [aidClass] using hc
-            simp [aidValue, this]
-          | chr _ => rfl
-          | str _ => rfl
-          | sym _ => rfl
-          | _ => simp [aidClass] at hc
-        simp only [hv]
-        cases is with
-        | nil => subst ht; simp at hlen
-        | cons i r =>
-          cases r with
+        obtain ⟨t, ht, _⟩ := regShape_elems xs s hs
+        cases hns : numShape (.list xs) with
+        | none => simp [hns] at hn
+        | some s' =>
+          have hag := shape_agree _ _ _ hns hs
+          subst hag
+          have hne := regShape_nonempty hs
+          have hl := natList_length _ _ hp
+          cases ixs with
           | nil =>
-            -- one index
-            subst ht
-            have ht0 : t = [] := by
-              cases t with
-              | nil => rfl
-              | cons _ _ => simp at hlen
-            subst ht0
-            have hnt : isText v = false := by
-              cases v <;> simp_all [aidClass, isText]
-            have hany : xs.any isListV = false := by
-              simp only [List.any_eq_false]
-              intro x hx
-              simp [regShape_nil_notList x (hel x hx)]
+            simp only [natList, Option.some.injEq] at hp
+            subst hp; subst ht
+            simp at hlen
+          | cons j r =>
+            cases is with
+            | nil => simp at hl
+            | cons i rest =>
+              have hms := multiSet_nat (.int n) (i :: rest) (.list xs) w h
+              simp only [List.map_cons] at hms
+              have hrk : realKind (.list xs) = false := by simp [realKind, hne, hr]
+              have hdir : aidDirect (.list xs) (rest.length + 1) (.int n) = true := by
+                simp only [aidDirect, hns, hrk, Bool.false_eq_true, if_false, Bool.and_true, beq_iff_eq]
+                simpa using hlen.symm
+              simp only [implDyad, implAmendDepth, ha, hb, Bool.or_self, Bool.false_eq_true, if_false,
+                Ext1.intList_of_natList hp, isOpaqueV, List.map_cons]
+              unfold aidRec
+              simp [hdir, hrk, hms, lift]
+      · simp at h
+
+/-- one level of the member-list path keeps the members -/
+def levelOk (r : List Val) : Bool := repackOk (.list r) && !Ext1.mixedNum (.list r)
+
+/-- every list rebuilt along the index path is kept by `kg_asarray` -/
+def pathOk : Val → List Nat → Bool
+  | .list r, [_] => levelOk r
+  | .list r, i :: j :: rest =>
+    levelOk r && (match r[i]? with
+      | some y => pathOk y (j :: rest)
+      | none => false)
+  | _, _ => false
+
+theorem repack_level (r : List Val) (h : levelOk r = true) : repack r = .ok (.list r) := by
+  simp only [levelOk, Bool.and_eq_true, Bool.not_eq_true'] at h
+  exact repack_ok r h.2 h.1
+
+/-- the member-list path (one member replaced per level, `kg_asarray` per level) -/
+theorem aidRec_slow (v : Val) (hd : ∀ p n, aidDirect p n v = false) : ∀ (is : List Nat) (a w : Val),
+    deepSet a is v = some w → pathOk w is = true →
+    aidRec a (is.map fun (p : Nat) => (p : Int)) v = .ok w := by
+  intro is
+  induction is with
+  | nil => intro a w h; simp [deepSet] at h
+  | cons i r ih =>
+    intro a w hset hp
+    cases a with
+    | list xs =>
+      cases r with
+      | nil =>
+        simp only [deepSet] at hset
+        split at hset
+        · rename_i hi
+          simp only [Option.some.injEq] at hset
+          subst hset
+          simp only [pathOk] at hp
+          simp [aidRec, hd, pySet_nat xs i v hi, repack_level _ hp]
+        · simp at hset
+      | cons j r' =>
+        simp only [deepSet] at hset
+        cases hx : xs[i]? with
+        | none => simp [hx] at hset
+        | some x =>
+          simp only [hx, Option.map_eq_some_iff] at hset
+          obtain ⟨y, hy, hw⟩ := hset
+          subst hw
+          have hi : i < xs.length := by
+            rcases List.getElem?_eq_some_iff.mp hx with ⟨hi, _⟩
+            exact hi
+          simp only [pathOk, Bool.and_eq_true] at hp
+          have hget : (xs.set i y)[i]? = some y := by simp [hi]
+          simp only [hget] at hp
+          have := ih x y hy hp.2
+          simp only [List.map_cons] at this
+          simp [aidRec, hd, Ext1.pyIndex_nat, hx, this, pySet_nat xs i y hi, repack_level _ hp.1]
+    | _ => simp [deepSet] at hset
+
+theorem aidDirect_text (v : Val) (hv : (isListV v || isText v) = true) : ∀ p n, aidDirect p n v = false := by
+  intro p n
+  cases v <;> simp [isListV, isText] at hv <;> simp only [aidDirect]
+  all_goals
+    split
+    · split <;> simp [Val.isNum]
+    · rfl
+
+def pathOkV (w : Val) (ixs : List Val) : Bool :=
+  match natList ixs with
+  | some is => pathOk w is
+  | none => false
+
+theorem notOpaque_of_text {v : Val} (hv : (isListV v || isText v) = true) : isOpaqueV v = false := by
+  cases v <;> simp_all [isListV, isText, isOpaqueV]
+
+/-- **amend_in_depth_any_correct**: a character, string, symbol or list stored into a regular
+    N-dimensional array at N in-range indices: one member is replaced per level and the lists are
+    rebuilt (`pathOkV`: `kg_asarray` keeps every rebuilt list) -/
+theorem amend_in_depth_any_correct (xs : List Val) (v : Val) (ixs : List Val) (w : Val)
+    (h : refDyad ":-" (.list xs) (.list (v :: ixs)) = some w)
+    (ha : Ext1.notStored (.list xs) = false) (hb : Ext1.notStored (.list (v :: ixs)) = false)
+    (hv : (isListV v || isText v) = true) (hp : pathOkV w ixs = true) :
+    implDyad ":-" (.list xs) (.list (v :: ixs)) = .ok w := by
+  simp only [refDyad, refAmendDepth] at h
+  cases hs : regShape (.list xs) with
+  | none => simp [hs] at h
+  | some s =>
+    cases hpn : natList ixs with
+    | none => simp [hs, hpn] at h
+    | some is =>
+      simp only [hs, hpn] at h
+      simp only [pathOkV, hpn] at hp
+      split at h
+      · rename_i hlen
+        simp only [beq_iff_eq] at hlen
+        obtain ⟨t, ht, _⟩ := regShape_elems xs s hs
+        have hl := natList_length _ _ hpn
+        cases ixs with
+        | nil =>
+          simp only [natList, Option.some.injEq] at hpn
+          subst hpn; subst ht
+          simp at hlen
+        | cons j r =>
+          have := aidRec_slow v (aidDirect_text v hv) is (.list xs) w h hp
+          simp [implDyad, implAmendDepth, ha, hb, Ext1.intList_of_natList hpn, notOpaque_of_text hv, this]
+      · simp at h
+
+/-- **amend_in_depth_vec_correct**: one index into a stored vector that is no numeric array
+    (members of any kind), any value -/
+theorem amend_in_depth_vec_correct (xs : List Val) (v ix w : Val)
+    (h : refDyad ":-" (.list xs) (.list [v, ix]) = some w)
+    (ha : Ext1.notStored (.list xs) = false) (hb : Ext1.notStored (.list [v, ix]) = false)
+    (hn : numShape (.list xs) = none) (ho : isOpaqueV v = false)
+    (hm : Ext1.mixedNum w = false) (hr : repackOk w = true) :
+    implDyad ":-" (.list xs) (.list [v, ix]) = .ok w := by
+  simp only [refDyad, refAmendDepth] at h
+  cases hs : regShape (.list xs) with
+  | none => simp [hs] at h
+  | some s =>
+    cases hpn : natList [ix] with
+    | none => simp [hs, hpn] at h
+    | some is =>
+      simp only [hs, hpn] at h
+      split at h
+      · have hl := natList_length _ _ hpn
+        cases is with
+        | nil => simp at hl
+        | cons i rest =>
+          cases rest with
+          | cons _ _ => simp at hl
+          | nil =>
             simp only [deepSet] at h
             split at h
             · rename_i hi
               simp only [Option.some.injEq] at h
               subst h
-              simp [hnt, hany, pySet_nat xs i v hi, lift]
+              have hdir : aidDirect (.list xs) 1 v = false := by
+                cases v <;> simp [aidDirect, hn]
+              simp [implDyad, implAmendDepth, ha, hb, Ext1.intList_of_natList hpn, ho, aidRec, hdir,
+                pySet_nat xs i v hi, repack_ok _ hm hr]
             · simp at h
-          | cons j r' =>
-            have hnum : (numShape (.list xs)).isSome = true := by
-              simp only [hixs, List.length_cons, Bool.or_eq_true, beq_iff_eq] at hn
-              rcases hn with hn | hn
-              · exact hn
-              · omega
-            have := aidWalk_correct v (i :: j :: r') (.list xs) s w (by simp) hs hlen h
-            simp only [List.map_cons] at this
-            simp [hnum, this]
       · simp at h
 
 /-! ## Index-in-Depth -/
@@ -771,13 +784,14 @@ end
 
 /-- **char_correct**: Char through any nesting depth (no `[]` inside: there `rec_fn` calls
     `chr(array([]))`, witness `char_empty_witness`) -/
-theorem char_correct (a v : Val) (h : refMonad ":#" a = some v) : implMonad ":#" a = .ok v := by
+theorem char_correct (a v : Val) (h : refMonad ":#" a = some v) (hs : Ext1.hasObjRank2 a = false) :
+    implMonad ":#" a = .ok v := by
   simp only [refMonad, refChar] at h
   split at h
   · simp at h
   · rename_i he
     simp only [Bool.not_eq_true] at he
-    simp [implMonad, implChar, implCharRec_eq a he, h, lift]
+    simp [implMonad, implChar, hs, implCharRec_eq a he, h, lift]
 
 /-! ## Undefined -/
 
@@ -785,39 +799,70 @@ theorem char_correct (a v : Val) (h : refMonad ":#" a = some v) : implMonad ":#"
 theorem undefined_correct (a v : Val) (h : refMonad ":_" a = some v) : implMonad ":_" a = .ok v := by
   cases a <;> simp_all [refMonad, implMonad, refUndefined, implUndefined]
 
+
 /-! ## Format -/
 
-/- a regular nest of numbers (also `[]`) occurs somewhere: `vec_fn` hands it to
-    `eval_monad_format` as a whole, which recurses forever -/
+/- no list anywhere in the value is re-packed by `kg_asarray` with broadcasting -/
 mutual
-def hasNumArr : Val → Bool
-  | .list xs => (numShape (.list xs)).isSome || hasNumArrL xs
-  | _ => false
-def hasNumArrL : List Val → Bool
-  | [] => false
-  | x :: xs => hasNumArr x || hasNumArrL xs
+def clashFree : Val → Bool
+  | .list xs => !Ext1.objArrayClash xs && clashFreeL xs
+  | _ => true
+def clashFreeL : List Val → Bool
+  | [] => true
+  | x :: xs => clashFree x && clashFreeL xs
 end
 
+/-- a regular numeric nest with a zero dimension holds `[]` -/
+theorem numShape_zero_hasEmpty : ∀ (a : Val) (s : List Nat), numShape a = some s → 0 ∈ s → hasEmptyList a = true
+  | .list [], _, _, _ => by simp [hasEmptyList]
+  | .list (x :: xs), s, h, h0 => by
+    obtain ⟨t, ht, hel⟩ := numShape_elems (x :: xs) s h (by simp)
+    subst ht
+    simp only [List.length_cons, List.mem_cons] at h0
+    rcases h0 with h0 | h0
+    · omega
+    · simp [hasEmptyList, numShape_zero_hasEmpty x t (hel x (by simp)) h0]
+  | .int _, s, h, h0 => by simp [numShape] at h; subst h; simp at h0
+  | .real _, s, h, h0 => by simp [numShape] at h; subst h; simp at h0
+  | .chr _, _, h, _ => by simp [numShape] at h
+  | .sym _, _, h, _ => by simp [numShape] at h
+  | .str _, _, h, _ => by simp [numShape] at h
+  | .dict _, _, h, _ => by simp [numShape] at h
+  | .undef, _, h, _ => by simp [numShape] at h
+
+theorem zeroSized_false {a : Val} (h : hasEmptyList a = false) : zeroSized a = false := by
+  unfold zeroSized
+  cases hs : numShape a with
+  | none => rfl
+  | some s =>
+    cases hc : s.contains 0 with
+    | false => simpa using hc
+    | true =>
+      have := numShape_zero_hasEmpty a s hs (by simpa using hc)
+      simp [this] at h
+
 mutual
-theorem implFormatRec_eq : ∀ (a v : Val), hasNumArr a = false → refA1 fmtAtom a = some v →
-    implFormatRec a = .ok v
-  | .list xs, v, hn, h => by
-    simp only [hasNumArr, Bool.or_eq_false_iff] at hn
+theorem implFormatRec_eq : ∀ (a v : Val), hasEmptyList a = false → clashFree v = true →
+    refA1 fmtAtom a = some v → implFormatRec a = .ok v
+  | .list [], v, he, _, _ => by simp [hasEmptyList] at he
+  | .list (x :: xs), v, he, hc, h => by
     simp only [refA1, Option.map_eq_some_iff] at h
     obtain ⟨vs, hvs, rfl⟩ := h
-    simp [implFormatRec, hn.1, implFormatL_eq xs vs hn.2 hvs]
-  | .int _, v, _, h => by simp_all [implFormatRec, refA1]
-  | .real _, v, _, h => by simp [refA1, fmtAtom] at h
-  | .chr _, v, _, h => by simp_all [implFormatRec, refA1]
-  | .sym _, v, _, h => by simp_all [implFormatRec, refA1]
-  | .str _, v, _, h => by simp_all [implFormatRec, refA1]
-  | .dict _, v, _, h => by simp [refA1, fmtAtom] at h
-  | .undef, v, _, h => by simp [refA1, fmtAtom] at h
-theorem implFormatL_eq : ∀ (xs vs : List Val), hasNumArrL xs = false → refMap1 fmtAtom xs = some vs →
-    implFormatL xs = .ok (.list vs)
-  | [], vs, _, h => by simp [refMap1] at h; subst h; simp [implFormatL]
-  | x :: xs, vs, hn, h => by
-    simp only [hasNumArrL, Bool.or_eq_false_iff] at hn
+    simp only [clashFree, Bool.and_eq_true, Bool.not_eq_true'] at hc
+    have hel : hasEmptyListL (x :: xs) = false := by simpa [hasEmptyList, hasEmptyListL] using he
+    simp [implFormatRec, zeroSized_false he, implFormatL_eq (x :: xs) vs hel hc.2 hvs, repackText, hc.1]
+  | .int _, v, _, _, h => by simp_all [implFormatRec, refA1]
+  | .real _, v, _, _, h => by simp [refA1, fmtAtom] at h
+  | .chr _, v, _, _, h => by simp_all [implFormatRec, refA1]
+  | .sym _, v, _, _, h => by simp_all [implFormatRec, refA1]
+  | .str _, v, _, _, h => by simp_all [implFormatRec, refA1]
+  | .dict _, v, _, _, h => by simp [refA1, fmtAtom] at h
+  | .undef, v, _, _, h => by simp [refA1, fmtAtom] at h
+theorem implFormatL_eq : ∀ (xs vs : List Val), hasEmptyListL xs = false → clashFreeL vs = true →
+    refMap1 fmtAtom xs = some vs → implFormatL xs = .ok (.list vs)
+  | [], vs, _, _, h => by simp [refMap1] at h; subst h; simp [implFormatL]
+  | x :: xs, vs, he, hc, h => by
+    simp only [hasEmptyListL, Bool.or_eq_false_iff] at he
     simp only [refMap1] at h
     cases hx : refA1 fmtAtom x with
     | none => simp [hx] at h
@@ -827,26 +872,22 @@ theorem implFormatL_eq : ∀ (xs vs : List Val), hasNumArrL xs = false → refMa
       | some rs =>
         simp [hx, hxs] at h
         subst h
-        simp [implFormatL, implFormatRec_eq x r hn.1 hx, implFormatL_eq xs rs hn.2 hxs]
+        simp only [clashFreeL, Bool.and_eq_true] at hc
+        simp [implFormatL, implFormatRec_eq x r he.1 hc.1 hx, implFormatL_eq xs rs he.2 hc.2 hxs]
 end
 
 /-- **format_correct**: Format of integers, characters, strings and symbols through any nesting
-    of OBJECT arrays; excluded: a numeric array anywhere (RecursionError, witness
-    `format_numeric_witness`) -/
+    depth and any mixture of numeric and object arrays (`rec_fn` formats every member) -/
 theorem format_correct (a v : Val) (h : refMonad "$" a = some v) (hs : Ext1.notStored a = false)
-    (hn : hasNumArr a = false) : implMonad "$" a = .ok v := by
+    (hc : clashFree v = true) : implMonad "$" a = .ok v := by
   simp only [refMonad, refFormat] at h
   split at h
   · simp at h
-  · simp [implMonad, implFormat, hs, implFormatRec_eq a v hn h]
+  · rename_i he
+    simp only [Bool.not_eq_true] at he
+    simp [implMonad, implFormat, hs, implFormatRec_eq a v he hc h]
 
 /-! ## Form (atoms) -/
-
-/-- `int(b)` raises ValueError where the manual says :undefined: a non-empty text without digits -/
-def formRaises (a b : Val) : Bool :=
-  match a, b with
-  | .int _, .str s => !s.isEmpty && noDigitAscii s
-  | _, _ => false
 
 theorem parseNat_some {s : List Nat} {n : Nat} (h : parseNat s = some n) :
     s ≠ [] ∧ s.all isDigit = true := by
@@ -899,10 +940,135 @@ theorem isRealLit_nonempty {s : List Nat} (h : isRealLit s = true) : s.isEmpty =
   | nil => simp [isRealLit] at h
   | cons _ _ => rfl
 
+
+theorem dropWhile_id {p : Nat → Bool} : ∀ (s : List Nat), (∀ c ∈ s, p c = false) → s.dropWhile p = s
+  | [], _ => rfl
+  | c :: t, h => by simp [List.dropWhile, h c (by simp)]
+
+theorem stripWs_id (s : List Nat) (h : ∀ c ∈ s, isWs c = false) : stripWs s = s := by
+  unfold stripWs
+  rw [dropWhile_id s h, dropWhile_id s.reverse (by intro c hc; exact h c (List.mem_reverse.mp hc))]
+  simp
+
+theorem mem_stripWs {s : List Nat} {c : Nat} (h : c ∈ stripWs s) : c ∈ s := by
+  unfold stripWs at h
+  have h1 := List.mem_reverse.mp h
+  have h2 := (List.dropWhile_sublist isWs).subset h1
+  have h3 := List.mem_reverse.mp h2
+  exact (List.dropWhile_sublist isWs).subset h3
+
+theorem digit_not_ws {c : Nat} (h : isDigit c = true) : isWs c = false := by
+  simp only [isDigit, Bool.and_eq_true, decide_eq_true_eq] at h
+  simp only [isWs, Bool.or_eq_false_iff, Bool.and_eq_false_iff, decide_eq_false_iff_not]
+  omega
+
+theorem digit_ascii {c : Nat} (h : isDigit c = true) : c < 128 := by
+  simp only [isDigit, Bool.and_eq_true, decide_eq_true_eq] at h
+  omega
+
+theorem pyDigits_digits : ∀ (s : List Nat), s ≠ [] → s.all isDigit = true → pyDigits s = some s
+  | [], h, _ => (h rfl).elim
+  | [c], _, h => by simp_all [pyDigits]
+  | c :: d :: r, _, h => by
+    simp only [List.all_cons, Bool.and_eq_true] at h
+    have hd : d ≠ 95 := by
+      intro e; subst e; simp [isDigit] at h
+    have ih := pyDigits_digits (d :: r) (by simp) (by simp [h.2.1, h.2.2])
+    rw [pyDigits]
+    · simp [h.1, ih]
+    · intro e
+      exact hd e
+
+theorem pyDigits_head {c : Nat} {t : List Nat} (h : isDigit c = false) : pyDigits (c :: t) = none := by
+  cases t with
+  | nil => simp [pyDigits, h]
+  | cons d r =>
+    by_cases e : d = 95
+    · subst e; simp [pyDigits, h]
+    · rw [pyDigits]
+      · simp [h]
+      · intro e'
+        exact e e'
+
+theorem pyDigits_noDigit (r : List Nat) (h : ∀ c ∈ r, isDigit c = false) : pyDigits r = none := by
+  cases r with
+  | nil => rfl
+  | cons c t => exact pyDigits_head (h c (by simp))
+
+/-- Python's `int()` accepts what the reference calls an integer, with the same value -/
+theorem pyInt_parseInt {s : List Nat} {n : Int} (h : parseInt s = some n) :
+    pyInt s = some n ∧ s.all (fun c => decide (c < 128)) = true := by
+  unfold parseInt at h
+  split at h
+  · rename_i r
+    cases hm : parseNat r with
+    | none => simp [hm] at h
+    | some m =>
+      obtain ⟨hne, hd⟩ := parseNat_some hm
+      have hv : m = digitsVal r 0 := by
+        simp only [parseNat] at hm
+        split at hm
+        · simpa using hm.symm
+        · simp at hm
+      simp only [hm] at h
+      have hws : ∀ c ∈ (45 :: r), isWs c = false := by
+        intro c hc
+        rcases List.mem_cons.mp hc with rfl | hc
+        · decide
+        · exact digit_not_ws ((List.all_eq_true.mp hd) c hc)
+      constructor
+      · unfold pyInt
+        rw [stripWs_id _ hws]
+        simp [pyDigits_digits r hne hd, ← h, hv]
+      · simp only [List.all_cons, Bool.and_eq_true, decide_eq_true_eq, List.all_eq_true]
+        exact ⟨by omega, fun c hc => digit_ascii ((List.all_eq_true.mp hd) c hc)⟩
+  · rename_i hnot
+    cases hm : parseNat s with
+    | none => simp [hm] at h
+    | some m =>
+      obtain ⟨hne, hd⟩ := parseNat_some hm
+      have hv : m = digitsVal s 0 := by
+        simp only [parseNat] at hm
+        split at hm
+        · simpa using hm.symm
+        · simp at hm
+      simp only [hm] at h
+      have hws : ∀ c ∈ s, isWs c = false := fun c hc => digit_not_ws ((List.all_eq_true.mp hd) c hc)
+      constructor
+      · unfold pyInt
+        rw [stripWs_id _ hws]
+        cases s with
+        | nil => exact (hne rfl).elim
+        | cons c t =>
+          have hc : isDigit c = true := (List.all_eq_true.mp hd) c (by simp)
+          have h45 : c ≠ 45 := by intro e; subst e; simp [isDigit] at hc
+          have h43 : c ≠ 43 := by intro e; subst e; simp [isDigit] at hc
+          split
+          · rename_i r' e; simp only [List.cons.injEq] at e; exact (h45 e.1).elim
+          · rename_i r' e; simp only [List.cons.injEq] at e; exact (h43 e.1).elim
+          · simp [pyDigits_digits (c :: t) hne hd, ← h, hv]
+      · simp only [List.all_eq_true, decide_eq_true_eq]
+        exact fun c hc => digit_ascii ((List.all_eq_true.mp hd) c hc)
+
+/-- Python's `int()` refuses a text without digits -/
+theorem pyInt_noDigit {s : List Nat} (h : noDigitAscii s = true) : pyInt s = none := by
+  have hnd : ∀ c ∈ stripWs s, isDigit c = false := by
+    intro c hc
+    have := (List.all_eq_true.mp h) c (mem_stripWs hc)
+    simp only [Bool.and_eq_true, Bool.not_eq_true'] at this
+    exact this.2
+  unfold pyInt
+  split
+  · rename_i r e
+    rw [pyDigits_noDigit r (fun c hc => hnd c (by rw [e]; simp [hc]))]; rfl
+  · rename_i r e
+    rw [pyDigits_noDigit r (fun c hc => hnd c (by rw [e]; simp [hc]))]; rfl
+  · rw [pyDigits_noDigit _ hnd]; rfl
+
 /-- **form_atom_correct**: Form of a string against an integer, character, string or symbol
-    template (atoms), outside `formRaises` -/
+    template (atoms): the converted value, or :undefined where the text is no notation of the kind -/
 theorem form_atom_correct (a b v : Val) (ha : isListV a = false) (hb : isListV b = false)
-    (h : refDyad ":$" a b = some v) (hr : formRaises a b = false) : implDyad ":$" a b = .ok v := by
+    (h : refDyad ":$" a b = some v) : implDyad ":$" a b = .ok v := by
   simp only [refDyad, refForm] at h
   split at h
   · simp at h
@@ -925,24 +1091,31 @@ theorem form_atom_correct (a b v : Val) (ha : isListV a = false) (hb : isListV b
           simp only [hp, Option.some.injEq] at h
           subst h
           obtain ⟨h1, h2⟩ := parseInt_some hp
-          simp [h1, h2]
+          obtain ⟨h3, h4⟩ := pyInt_parseInt hp
+          simp [h1, h2, h3, h4]
         | none =>
           simp only [hp] at h
           split at h
           · rename_i hc
             simp only [Option.some.injEq] at h
             subst h
-            simp only [formRaises, Bool.and_eq_false_iff, Bool.not_eq_false'] at hr
             cases hemp : s.isEmpty with
             | true => simp
             | false =>
-              have hnd : noDigitAscii s = false := by
-                rcases hr with hr | hr
-                · simp [hemp] at hr
-                · exact hr
-              simp only [hnd, Bool.or_false] at hc
-              have hdot : 46 ∈ s := isRealLit_dot hc
-              simp [hdot, hc]
+              by_cases hdot : 46 ∈ s
+              · simp [hdot]
+              · have hnr : isRealLit s = false := by
+                  cases hr : isRealLit s with
+                  | false => rfl
+                  | true => exact (hdot (isRealLit_dot hr)).elim
+                simp only [hnr, Bool.false_or] at hc
+                have hasc : s.all (fun c => decide (c < 128)) = true := by
+                  simp only [List.all_eq_true, decide_eq_true_eq]
+                  intro c hcm
+                  have := (List.all_eq_true.mp hc) c hcm
+                  simp only [Bool.and_eq_true, decide_eq_true_eq] at this
+                  exact this.1
+                simp [hdot, hasc, pyInt_noDigit hc]
           · simp at h
       | _ => simp [formAtom] at h
     | chr c =>
@@ -977,6 +1150,7 @@ theorem form_atom_correct (a b v : Val) (ha : isListV a = false) (hb : isListV b
       | _ => simp [formAtom] at h
     | _ => simp [formAtom] at h
 
+
 /-! ## witnesses (all `by decide`): the manual's examples, and what the code does where it
     deviates from the manual or where the reference is silent -/
 
@@ -1004,39 +1178,49 @@ theorem amend_examples_witness :
     optIs (refAmend (.str [97, 97]) (l [.str [98, 99], i 1])) (.str [97, 98, 99]) = true ∧
     (implAmend (.str [97, 97]) (l [.str [98, 99], i 1])).is (.str [97, 98, 99]) = true := by decide
 
-/-- deviation: `numpy.put` addresses the FLATTENED array — [[1 2] [3 4]]:=5,1 is [[1 5] [3 4]],
-    the manual says [[1 2] 5] -/
-theorem amend_matrix_witness :
-    (implAmend (l [l [i 1, i 2], l [i 3, i 4]]) (l [i 5, i 1])).is (l [l [i 1, i 5], l [i 3, i 4]]) = true ∧
+private def half : Val := .real 0x3FE0000000000000      -- 0.5
+
+/-- repaired (12321e2): positions name members of the list, whatever its rank — [[1 2] [3 4]]:=5,1
+    is [[1 2] 5]; a value of another kind replaces a member of an integer list — [1 2 3]:=0cx,1 is
+    [1 0cx 3] -/
+theorem amend_members_witness :
+    (implAmend (l [l [i 1, i 2], l [i 3, i 4]]) (l [i 5, i 1])).is (l [l [i 1, i 2], i 5]) = true ∧
     optIs (refAmend (l [l [i 1, i 2], l [i 3, i 4]]) (l [i 5, i 1])) (l [l [i 1, i 2], i 5]) = true ∧
-    amendPutClass (l [l [i 1, i 2], l [i 3, i 4]]) (i 5) = false := by decide
-
-/-- deviation: a character / string / symbol cannot be put into an integer array —
-    [1 2 3]:=0cx,1 raises ValueError, the manual says [1 0cx 3] -/
-theorem amend_text_witness :
-    Ext1.Res.isErr (implAmend (l [i 1, i 2, i 3]) (l [.chr 120, i 1])) = true ∧
+    (implAmend (l [i 1, i 2, i 3]) (l [.chr 120, i 1])).is (l [i 1, .chr 120, i 3]) = true ∧
     optIs (refAmend (l [i 1, i 2, i 3]) (l [.chr 120, i 1])) (l [i 1, .chr 120, i 3]) = true ∧
-    Ext1.Res.isErr (implAmend (l [i 1, i 2, i 3]) (l [.str [97, 98], i 0])) = true ∧
-    amendPutClass (l [i 1, i 2, i 3]) (.chr 120) = false := by decide
+    (implAmend (l [i 1, i 2, i 3]) (l [.str [97, 98], i 0])).is (l [.str [97, 98], i 2, i 3]) = true ∧
+    (implAmend (l [i 1, i 2, i 3]) (l [l [i 9, i 9], i 0, i 2])).is (l [l [i 9, i 9], i 2, l [i 9, i 9]]) = true := by
+  decide
 
-/-- deviation: a substring that overflows the end from a position before the last character is
-    INSERTED — "abcd":="xyz",2 is "abxyzd", the manual says "abxyz"; a one-character string at
-    position #a is dropped — "abc":="d",3 is "abc", the manual says "abcd" -/
+/-- repaired (12321e2): the string grows by the required amount — "abcd":="xyz",2 is "abxyz",
+    "abc":="d",3 is "abcd" -/
 theorem amend_grow_witness :
-    (implAmend (.str [97, 98, 99, 100]) (l [.str [120, 121, 122], i 2])).is (.str [97, 98, 120, 121, 122, 100]) = true ∧
+    (implAmend (.str [97, 98, 99, 100]) (l [.str [120, 121, 122], i 2])).is (.str [97, 98, 120, 121, 122]) = true ∧
     optIs (refAmend (.str [97, 98, 99, 100]) (l [.str [120, 121, 122], i 2])) (.str [97, 98, 120, 121, 122]) = true ∧
-    (implAmend (.str [97, 98, 99]) (l [.str [100], i 3])).is (.str [97, 98, 99]) = true ∧
+    (implAmend (.str [97, 98, 99]) (l [.str [100], i 3])).is (.str [97, 98, 99, 100]) = true ∧
     optIs (refAmend (.str [97, 98, 99]) (l [.str [100], i 3])) (.str [97, 98, 99, 100]) = true := by decide
 
-/-- outside the reference: indices beyond the end / negative indices, an empty `b` -/
+/-- remaining deviation (kind only): an integer put into a float64 array comes back real —
+    [0.5]:=0,0 is [0.0], the manual's "replaced by b1" gives [0]; likewise [0.5]:-42,0 -/
+theorem amend_kind_witness :
+    (match implAmend (l [half]) (l [i 0, i 0]) with | .ok (.list [.real _]) => true | _ => false) = true ∧
+    optIs (refAmend (l [half]) (l [i 0, i 0])) (l [i 0]) = true ∧
+    amendValueOk (l [half]) (i 0) = false ∧
+    (match implAmendDepth (l [half]) (l [i 42, i 0]) with | .ok (.list [.real _]) => true | _ => false) = true ∧
+    optIs (refAmendDepth (l [half]) (l [i 42, i 0])) (l [i 42]) = true := by decide
+
+/-- outside the reference: indices beyond the end raise, negative indices count from the end,
+    overlapping substrings are replaced one after the other, an empty `b` returns `a` -/
 theorem amend_outside_witness :
     (refAmend (l [i 1, i 2, i 3]) (l [i 0, i 3])).isNone = true ∧
     Ext1.Res.isErr (implAmend (l [i 1, i 2, i 3]) (l [i 0, i 3])) = true ∧
     (refAmend (l [i 1, i 2, i 3]) (l [i 0, i (-1)])).isNone = true ∧
     (implAmend (l [i 1, i 2, i 3]) (l [i 0, i (-1)])).is (l [i 1, i 2, i 0]) = true ∧
     (refAmend (.str [97, 98, 99]) (l [.str [100, 101], i 4])).isNone = true ∧
-    (implAmend (.str [97, 98, 99]) (l [.str [100, 101], i 4])).is (.str [97, 98, 99]) = true ∧
+    Ext1.Res.isErr (implAmend (.str [97, 98, 99]) (l [.str [100, 101], i 4])) = true ∧
+    (implAmend (.str [97, 98, 99]) (l [.str [100, 101], i (-1)])).is (.str [97, 98, 100, 101]) = true ∧
     (refAmend (.str [97, 98, 99]) (l [.str [100, 101], i 1, i 2])).isNone = true ∧
+    (implAmend (.str [97, 98, 99]) (l [.str [100, 101], i 1, i 2])).is (.str [97, 100, 100, 101]) = true ∧
     (implAmend (l [i 1, i 2, i 3]) (l [])).is (l [i 1, i 2, i 3]) = true := by decide
 
 /-- Amend-in-Depth / Index-in-Depth: the manual's examples -/
@@ -1052,22 +1236,32 @@ theorem depth_examples_witness :
     (implAmendDepth (l [l [i 1, i 2], l [i 3, i 4]]) (l [.str [97], i 0, i 1])).is
       (l [l [i 1, .str [97]], l [i 3, i 4]]) = true := by decide
 
-/-- deviation: with ONE index the index array `b[1:]` of a non-integer value is an object array —
-    [1 2 3]:-0cx,1 raises IndexError, the manual says [1 0cx 3]; a list value is refused by a numeric
-    array — [[1 2] [3 4]]:-[[9] 0 1] raises ValueError, the manual's "b1 can have any type" gives
-    [[1 [9]] [3 4]]; outside the reference: fewer
-    indices than dimensions select a sub-array / are not modelled, ragged lists have no rank -/
-theorem depth_deviation_witness :
-    Ext1.Res.isErr (implAmendDepth (l [i 1, i 2, i 3]) (l [.chr 120, i 1])) = true ∧
+/-- repaired (187c70d): a value of any kind, with any number of indices — [1 2 3]:-0cx,1 is
+    [1 0cx 3], [[1 2] [3 4]]:-[[9] 0 1] is [[1 [9]] [3 4]]; outside the reference: fewer indices
+    than dimensions address a sub-array, ragged lists have no rank -/
+theorem depth_value_witness :
+    (implAmendDepth (l [i 1, i 2, i 3]) (l [.chr 120, i 1])).is (l [i 1, .chr 120, i 3]) = true ∧
     optIs (refAmendDepth (l [i 1, i 2, i 3]) (l [.chr 120, i 1])) (l [i 1, .chr 120, i 3]) = true ∧
-    aidClass (l [i 1, i 2, i 3]) (.chr 120) 1 = false ∧
-    Ext1.Res.isErr (implAmendDepth (l [l [i 1, i 2], l [i 3, i 4]]) (l [l [i 9], i 0, i 1])) = true ∧
+    (implAmendDepth (l [l [i 1, i 2], l [i 3, i 4]]) (l [l [i 9], i 0, i 1])).is (l [l [i 1, l [i 9]], l [i 3, i 4]]) = true ∧
     optIs (refAmendDepth (l [l [i 1, i 2], l [i 3, i 4]]) (l [l [i 9], i 0, i 1])) (l [l [i 1, l [i 9]], l [i 3, i 4]]) = true ∧
+    pathOk (l [l [i 1, l [i 9]], l [i 3, i 4]]) [0, 1] = true ∧
     (refIndexDepth (l [l [i 1, i 2], l [i 3, i 4]]) (l [i 1])).isNone = true ∧
     (implIndexDepth (l [l [i 1, i 2], l [i 3, i 4]]) (l [i 1])).is (l [i 3, i 4]) = true ∧
     (refIndexDepth (l [l [i 1], l [i 2, i 3]]) (l [i 1, i 0])).isNone = true ∧
     Ext1.Res.isErr (implIndexDepth (l [l [i 1], l [i 2, i 3]]) (l [i 1, i 0])) = true ∧
-    (refAmendDepth (l [l [i 1], l [i 2, i 3]]) (l [i 42, i 1, i 0])).isNone = true := by decide
+    (refAmendDepth (l [l [i 1], l [i 2, i 3]]) (l [i 42, i 1, i 0])).isNone = true ∧
+    (implAmendDepth (l [l [i 1], l [i 2, i 3]]) (l [i 42, i 1, i 0])).is (l [l [i 1], l [i 42, i 3]]) = true := by decide
+
+/-- remaining deviation (new with 187c70d, same root as join:numpy-repack): `kg_asarray` of the
+    rebuilt rows broadcasts a (1,1) member against (1,) members — [[1] [2] [3]]:-[[9] 0 0] is
+    [[9] [2] [3]], the manual gives [[[9]] [2] [3]]; the model leaves this class unmodelled
+    (`pathOk` false) -/
+theorem depth_repack_witness :
+    (match implAmendDepth (l [l [i 1], l [i 2], l [i 3]]) (l [l [i 9], i 0, i 0]) with
+     | .unmodelled => true | _ => false) = true ∧
+    optIs (refAmendDepth (l [l [i 1], l [i 2], l [i 3]]) (l [l [i 9], i 0, i 0]))
+      (l [l [l [i 9]], l [i 2], l [i 3]]) = true ∧
+    pathOk (l [l [l [i 9]], l [i 2], l [i 3]]) [0, 0] = false := by decide
 
 /-- Divide / Reciprocal / Power: division of atoms by zero is :undefined; integer powers
     (`refA2` / `implA2` are well-founded recursions: the witnesses are on the scalar functions) -/
@@ -1097,8 +1291,9 @@ theorem char_witness :
     Ext1.Res.isErr (implChar (l [])) = true ∧ Ext1.Res.isErr (implChar (l [i 97, l []])) = true ∧
     (refChar (l [])).isNone = true := by decide
 
-/-- Format: the manual's examples; deviation: a numeric array recurses forever —
-    $[1 2 3] raises RecursionError, the manual ("$" is an atomic operator) says ["1" "2" "3"] -/
+/-- Format: the manual's examples; repaired (175176c): every member of a numeric array is
+    formatted — $[1 2 3] is ["1" "2" "3"]; new defect: a numeric array with rows but no elements
+    ([[]], shape (1,0)) still recurses forever (the reference is silent on []) -/
 theorem format_witness :
     optIs (refFormat (i 123)) (.str [49, 50, 51]) = true ∧ (implFormat (i 123)).is (.str [49, 50, 51]) = true ∧
     (implFormat (i (-123))).is (.str [45, 49, 50, 51]) = true ∧
@@ -1107,14 +1302,15 @@ theorem format_witness :
     optIs (refFormat (.sym [102, 111, 111])) (.str [58, 102, 111, 111]) = true ∧
     (implFormat (.sym [102, 111, 111])).is (.str [58, 102, 111, 111]) = true ∧
     (implFormat (l [i 1, .str [97]])).is (l [.str [49], .str [97]]) = true ∧
-    Ext1.Res.isErr (implFormat (l [i 1, i 2, i 3])) = true ∧
+    (implFormat (l [i 1, i 2, i 3])).is (l [.str [49], .str [50], .str [51]]) = true ∧
     optIs (refFormat (l [i 1, i 2, i 3])) (l [.str [49], .str [50], .str [51]]) = true ∧
-    hasNumArr (l [i 1, i 2, i 3]) = true ∧
-    Ext1.Res.isErr (implFormat (l [.str [97], l [i 1, i 2]])) = true := by decide
+    (implFormat (l [.str [97], l [i 1, i 2]])).is (l [.str [97], l [.str [49], .str [50]]]) = true ∧
+    (implFormat (l [])).is (l []) = true ∧
+    Ext1.Res.isErr (implFormat (l [l []])) = true ∧ (refFormat (l [l []])).isNone = true := by decide
 
-/-- Form: the manual's examples; deviations: `int("abc")` raises ValueError where the manual says
-    :undefined; a numeric array template against one string returns the string —
-    [1 2]:$"12" is "12", the manual (":$ is an atomic operator") says [12 12] -/
+/-- Form: the manual's examples; repaired (22bcc8e, 2fe5617): text that is no number gives
+    :undefined — 1:$"abc"; a list of templates extends over one string — [1 2]:$"12" is [12 12];
+    outside the reference (Python's int() leniency): " 12", "1_0", "+5" are converted -/
 theorem form_witness :
     optIs (formAtom (i 1) (.str [45, 49, 50, 51])) (i (-123)) = true ∧
     (implForm (i 1) (.str [45, 49, 50, 51])).is (i (-123)) = true ∧
@@ -1126,10 +1322,14 @@ theorem form_witness :
     optIs (formAtom (i 1) (.str [49, 46, 53])) .undef = true ∧ (implForm (i 1) (.str [49, 46, 53])).is .undef = true ∧
     (implForm (.chr 48) (.str [120, 121])).is .undef = true ∧
     optIs (formAtom (i 1) (.str [97, 98, 99])) .undef = true ∧
-    Ext1.Res.isErr (implForm (i 1) (.str [97, 98, 99])) = true ∧
-    formRaises (i 1) (.str [97, 98, 99]) = true ∧
-    (implForm (l [i 1, i 2]) (.str [49, 50])).is (.str [49, 50]) = true ∧
-    (implForm (l [i 1, .chr 120]) (l [.str [49, 50], .str [121]])).is (l [i 12, .chr 121]) = true := by decide
+    (implForm (i 1) (.str [97, 98, 99])).is .undef = true ∧
+    (implForm (l [i 1, i 2]) (.str [49, 50])).is (l [i 12, i 12]) = true ∧
+    (implForm (l [i 1, .chr 120]) (l [.str [49, 50], .str [121]])).is (l [i 12, .chr 121]) = true ∧
+    (formAtom (i 1) (.str [32, 49, 50])).isNone = true ∧ (implForm (i 1) (.str [32, 49, 50])).is (i 12) = true ∧
+    (formAtom (i 1) (.str [49, 95, 48])).isNone = true ∧ (implForm (i 1) (.str [49, 95, 48])).is (i 10) = true ∧
+    (formAtom (i 1) (.str [43, 53])).isNone = true ∧ (implForm (i 1) (.str [43, 53])).is (i 5) = true ∧
+    (implForm (i 1) (.str [49, 95, 95, 48])).is .undef = true ∧
+    (implForm (i 1) (.str [49, 101, 53])).is .undef = true := by decide
 
 /-- the reference on the two list cases above: [1 2]:$"12" and [1 0cx]:$["12" "y"] -/
 theorem form_list_witness :
@@ -1145,5 +1345,6 @@ theorem form_list_witness :
 theorem undefined_witness :
     (implUndefined .undef).is (i 1) = true ∧ (implUndefined (i 1)).is (i 0) = true ∧
     (implUndefined (l [])).is (i 0) = true := by decide
+
 
 end Klong.C01.Ext3
